@@ -318,12 +318,10 @@ class CFGBuilder(AstVisitor[BB | None]):
             modifier = self._handle_withitem(item)
             new_node.push_modifier(modifier)
 
-        # FIXME: Currently, the unitary flags is not set correctly if there are nested
-        # `with` blocks. This is because the outer block's unitary flags are not
-        # propagated to the outer block. The following line should calculate the sum
-        # of the unitary flags of the outer block and modifiers applied in this
-        # `with` block.
-        cfg.unitary_flags = new_node.flags()
+        # The body has to meet the requirements of the modifiers applied here *and* the
+        # ones of the enclosing context. `with` blocks nested inside the body have
+        # already been built at this point, so the flags are pushed down into them.
+        _add_unitary_flags(cfg, self.cfg.unitary_flags | new_node.flags())
 
         set_location_from(new_node, node)
         bb.statements.append(new_node)
@@ -604,6 +602,16 @@ class BranchBuilder(AstVisitor[None]):
         bb.branch_pred = pred
         self.cfg.link(bb, false_bb)
         self.cfg.link(bb, true_bb)
+
+
+def _add_unitary_flags(cfg: CFG, flags: UnitaryFlags) -> None:
+    """Adds the unitary flags required by an enclosing context to a CFG and to all
+    `with` blocks nested inside it."""
+    cfg.unitary_flags |= flags
+    for bb in cfg.bbs:
+        for stmt in bb.statements:
+            if isinstance(stmt, ModifiedBlock):
+                _add_unitary_flags(stmt.cfg, flags)
 
 
 def desugar_comprehension(
